@@ -153,7 +153,11 @@ def pushdown_cnf(
             if isinstance(node, exp.Select):
                 predicate.replace(exp.true())
                 inner_predicate = replace_aliases(node, predicate)
-                if find_in_scope(inner_predicate, exp.AggFunc):
+                # An aggregation without GROUP BY returns a row whatever its WHERE filters out,
+                # so a predicate on its output can only become a HAVING condition
+                if find_in_scope(inner_predicate, exp.AggFunc) or any(
+                    find_in_scope(select, exp.AggFunc) for select in node.selects
+                ):
                     node.having(inner_predicate, copy=False)
                 else:
                     node.where(inner_predicate, copy=False)
@@ -212,7 +216,11 @@ def pushdown_dnf(
                 node.on(predicate, copy=False)
             elif isinstance(node, exp.Select):
                 inner_predicate = replace_aliases(node, predicate)
-                if find_in_scope(inner_predicate, exp.AggFunc):
+                # An aggregation without GROUP BY returns a row whatever its WHERE filters out,
+                # so a predicate on its output can only become a HAVING condition
+                if find_in_scope(inner_predicate, exp.AggFunc) or any(
+                    find_in_scope(select, exp.AggFunc) for select in node.selects
+                ):
                     node.having(inner_predicate, copy=False)
                 else:
                     node.where(inner_predicate, copy=False)
